@@ -17,6 +17,8 @@ def check(ctx, replay=None):
     # two conditions of one list on the same argument: every pair of operations (an AND must stay an AND)
     plan.append(dict(scope="pairs", mc=["DecisionOK"], mc_maxskips=[255], stride=1, concs=3 if th else 2, expand=2))
     plan.append(dict(scope="subsume", mc=["DecisionOK"], mc_maxskips=[255], stride=1 if th else 2, concs=2, expand=2))
+    # three or four alternatives of one syscall, each a single Equal test (alternating arguments, operands with different high words)
+    plan.append(dict(scope="eqruns", mc=["DecisionOK"], mc_maxskips=[255], stride=1 if th else 2, concs=2, expand=2))
     plan.append(dict(scope="mergeops", mc=["DecisionOK"], mc_maxskips=[255], stride=1 if th else 2, concs=3 if th else 2, expand=2))
     # real scale: one syscall with k lists x c conditions (jump distances 253..258) between other entries and a later group
     plan.append(dict(scope="longconds", mc=["DecisionOK"] if th else None, mc_maxskips=[255], kw=dict(W=8, X32Bit=512, NSys=300), stride=1 if th else 3, concs=4 if th else 2, expand=1))
